@@ -6,7 +6,7 @@ CONSTANTS
   MaxTip = 2
   Mat = 2
   Answers = {"accepted", "inmempool", "rejected", "notifyfail1", "notifyfail2", "badlabel"}
-  Acts = {"Receive", "Mine", "Lock", "Send", "SendExplicit", "FundOwn", "DryRun", "Restart", "RestartRej"}
+  Acts = {"Receive", "Mine", "Lock", "Send", "SendExplicit", "FundOwn", "DryRun", "Restart", "RestartRej", "Resync", "ResyncRej"}
   LockCoins = {1}
   MaxHist = 40
   FullHist = FALSE
